@@ -719,3 +719,29 @@ func selectArmDominates(sel *ssa.Select, at ssa.Instruction, pick func(*ssa.Sele
 	}
 	return false
 }
+
+// selectArmStart: the first instruction executed when arm i of sel was chosen (the true successor of `index == i`).
+func selectArmStart(sel *ssa.Select, i int) ssa.Instruction {
+	fn := sel.Parent()
+	for _, b := range fn.Blocks {
+		if len(b.Instrs) == 0 || len(b.Succs) != 2 {
+			continue
+		}
+		ifi, ok := b.Instrs[len(b.Instrs)-1].(*ssa.If)
+		if !ok {
+			continue
+		}
+		bo, ok := ifi.Cond.(*ssa.BinOp)
+		if !ok || bo.Op != token.EQL {
+			continue
+		}
+		ex, ok := ssax.Strip(bo.X).(*ssa.Extract)
+		if !ok || ex.Tuple != ssa.Value(sel) || ex.Index != 0 {
+			continue
+		}
+		if k, ok := ssax.ConstInt(bo.Y); ok && int(k) == i && len(b.Succs[0].Instrs) > 0 {
+			return b.Succs[0].Instrs[0]
+		}
+	}
+	return nil
+}
